@@ -30,7 +30,16 @@ ASSUMPTIONS = [
     "a genuine datagram with bytes appended still opens under the key and counts as that genuine datagram "
     "(Packet.from_bytes ignores bytes beyond 20+length+16); the theorem calls it authentic",
 ]
-TRUSTED = ["harness/connsim.py abstract()/concrete(): translation between real bytes and symbolic datagrams using the real AESGCM"]
+TRUSTED = ["harness/connsim.py abstract()/concrete(): translation between real bytes and symbolic datagrams using the real AESGCM",
+           "harness/srvx.py ScriptedSocket: stands for the OS socket under _UdpServer.run (recvfrom returns a fresh bytes object, the *_into "
+           "calls write into the caller's buffer); a real localhost socket is not used"]
+LOOP_RULE = ("server-loop twin worlds (harness/srvx.py): 2 real UdpClients around the real UdpServerThread behind each front door "
+             "(TwistedServer.datagramReceived with a fresh thread / with the thread TwistedServer and ThreadedServer build themselves / the socket "
+             "loop _UdpServer.run on a scripted socket); in the attacked world every genuine datagram of the tick's victim may get forgeries made "
+             "from it without the key (same length+count under any header, re-typed, seq/ack rewritten, bit-flipped, truncated, valid-CRC plaintext, "
+             "wrong key, random body) directly before / after / around it in the SAME tick from the SAME address, the victim's datagrams being the "
+             "last of the tick; the twin has the same seed and no forgeries; handlers raise in some worlds; non-trivial = twin pair with at least "
+             "one same-length forgery directly before its genuine datagram")
 
 T = S.TICKS
 RING = 65535
@@ -1114,7 +1123,8 @@ def run(run):
     corr_bytes(run, inj)
     server_half_open(run, run.rng, 8 if thorough else 4)
     from harness import srvx as X
-    server_loop_forgeries(run, run.rng, list(X.FRONTS) * (3 if thorough else 1) + ["udpserver"], 60 if thorough else 36)
+    server_loop_forgeries(run, run.rng, list(X.FRONTS) * (12 if thorough else 1) + ["udpserver"], 60 if thorough else 36)
+    run.rules.append(LOOP_RULE)
     run.count("injected_total", inj.n)
     run.sample({"oracle": "deep snapshot equality around each injected datagram; twin session comparison",
                 "injected": inj.n, "refused_by_header_gate": inj.gate})
